@@ -98,7 +98,7 @@ def digests_equal(a, b, rtol=1e-9):
 
 
 def run_traced(cfg: dict, n_steps: int, schedule: Schedule | None = None, env: tracer.TableEnv | None = None,
-               ref_digests=None, split=None, db_path="sqlite://", events_meta=None):
+               ref_digests=None, split=None, db_path="sqlite://", events_meta=None, catch_crash=False):
     """Build the real scenario, run it with propagateTo, return (events, per-step digests, app)."""
     if env is not None:
         tracer.install_table_env()
@@ -112,6 +112,12 @@ def run_traced(cfg: dict, n_steps: int, schedule: Schedule | None = None, env: t
         for c in calls:
             # one propagateTo call per run split; digest after every step via the step wrapper
             _propagate_with_digests(app, c * dt, rec, digests, ref_digests)
+    except Exception as ex:  # noqa: BLE001
+        if not catch_crash:
+            raise
+        import traceback
+        rec.emit("Crash", error=f"{type(ex).__name__}: {ex}"[:300], tb=traceback.format_exc()[-1200:])
+        rec.saved_this_step = True
     finally:
         tracer.stop()
         sched.set_chooser(None)
